@@ -120,6 +120,28 @@ func cells() []cell {
 			{label: "g3", prog: func(w *worker) { w.enc(e.sess["P3"], "P3") }},
 		}
 	}})
+	// a key that was used several times before (promoted to / demoted from a protected segment, high frequency
+	// count) is in use by g1 while g2 churns the cache through several further evictions
+	for _, pol := range []string{"lru", "lfu", "slru", "tinylfu"} {
+		for _, cp := range []int{1, 2} {
+			if cp == 2 && (pol == "lru" || pol == "lfu") {
+				continue
+			}
+			out = append(out, cell{name: fmt.Sprintf("shared-%s-cap%d/hot-key-vs-churn", pol, cp), cfg: sharedCfg(pol, cp), parts: []string{"P1", "P2", "P3", "P4"}, workers: func(e *cenv) []*worker {
+				for i := 0; i < 3; i++ {
+					_, _ = e.sess["P1"].Decrypt(context.Background(), *world.CopyDRR(e.recs["P1"].drr))
+				}
+				return []*worker{
+					{label: "g1", prog: func(w *worker) { w.dec(e.sess["P1"], e.recs["P1"]) }},
+					{label: "g2", prog: func(w *worker) {
+						w.dec(e.sess["P2"], e.recs["P2"])
+						w.dec(e.sess["P3"], e.recs["P3"])
+						w.dec(e.sess["P4"], e.recs["P4"])
+					}},
+				}
+			}})
+		}
+	}
 	// SK cache of capacity 1 with two SK generations, per-session IK caches
 	skc := world.Default(time.Hour, 30*time.Minute, time.Minute)
 	skc.SKPolicy, skc.SKCap = "lru", 1
@@ -161,10 +183,10 @@ func cells() []cell {
 }
 
 type schedOutcome struct {
-	trace       []string
-	evictInUse  int
-	verdicts    [][2]string
-	hookOrder   string
+	trace      []string
+	evictInUse int
+	verdicts   [][2]string
+	hookOrder  string
 }
 
 // runCell executes one schedule of cell c chosen by d, inside a bubble.
@@ -390,7 +412,7 @@ func stressC08(t *testing.T, r *ev.Run) {
 		parts   int
 		workers int
 		ops     int
-		encPct  int // percentage of encrypts (default 33)
+		encPct  int  // percentage of encrypts (default 33)
 		hot     bool // aggressive yields at log points (long sleeps, often)
 	}
 	mk := func(pol string, cap int, shared bool) world.Cfg {
